@@ -73,20 +73,24 @@ package crlreader
 //@   requires wrapperOK(reader)
 //@   assigns X.stream, E.uint8
 //@ func parseVersion
+//@   errors_propagated
 //@   props C06 C07
 //@   requires wrapperOK(reader)
 //@   assigns X.stream, X.spos, X.hacc, X.hkind, E.uint8
 //@   ensures[C06] version_range: err == nil ==> 1 <= r0 && r0 <= 256
 //@ func parseExtensions
+//@   errors_propagated
 //@   props C06 C07
 //@   requires wrapperOK(reader)
 //@   assigns X.stream, X.spos, X.hacc, X.hkind, E.uint8
 //@   ensures err == nil ==> ret != nil
 //@ func parseCRlNumberIfExists
+//@   errors_propagated
 //@   props C06 C07
 //@   requires crlExtensions != nil
 //@   assigns X.stream, X.spos, E.uint8
 //@ func readAlgorithmIdentifier
+//@   errors_propagated
 //@   props C06 C07
 //@   requires readerOK(reader)
 //@   assigns X.stream, X.spos, X.hacc, X.hkind, E.uint8
